@@ -212,6 +212,58 @@ def compile_property(pid):
                 wall=time.time() - t0)
 
 
+def _assumptions_of(out):
+    assumptions = []
+    for m in re.finditer(r'^([A-Za-z_][\w\.]*)\s*:', out, flags=re.M):
+        name = m.group(1)
+        if '.' in name or name in ('classic', 'functional_extensionality_dep', 'sig_forall_dec',
+                                   'sig_not_dec', 'proof_irrelevance', 'JMeq_eq'):
+            if name not in assumptions:
+                assumptions.append(name)
+    return assumptions
+
+
+def build_tie(pid):
+    """translate the registered source functions of <pid> from /repo's working tree (harness/pytrans.py), compile the
+    generated definitions, the hand-written tie proofs (coq/tie/Tie_<pid>.v: generated = model) and the property
+    statements about the generated definitions (coq/tie/TieProp_<pid>.v).  None when nothing is registered."""
+    import pytrans
+    import pytrans_registry
+    specs = pytrans_registry.SLICES.get(pid)
+    if not specs:
+        return None
+    t0 = time.time()
+    gen = pytrans.generate(pid, specs, os.path.join(COQ, 'gen'))
+    res = dict(functions=gen['functions'], translator_errors=gen['errors'], theorems=[], obligations=0,
+               discharged=0, assumptions=[], closed_count=0, ok=False, log='', stage='translate',
+               generated_file=gen['path'])
+    src = os.path.join(COQ, 'tie', f'TieProp_{pid}.v')
+    stripped = re.sub(r'\(\*.*?\*\)', '', open(src).read(), flags=re.S)
+    res['theorems'] = re.findall(r'^\s*Theorem\s+(\w+)', stripped, flags=re.M)
+    res['obligations'] = len(res['theorems'])
+    printed = re.findall(r'Print\s+Assumptions\s+(\w+)', stripped)
+    missing_pa = [t for t in res['theorems'] if t not in printed]
+    if gen['errors']:
+        res['log'] = 'translator (fail closed): ' + '; '.join(gen['errors'])
+        return res
+    flags = '-Q theories RSA -Q gen RSAGen -Q tie RSATie'
+    for stage, f in (('generated definitions', f'gen/Gen_{pid}.v'), ('tie proofs', f'tie/Tie_{pid}.v'),
+                     ('tie property statements', f'tie/TieProp_{pid}.v')):
+        cmd = f'timeout 600 coqc {flags} {f}'
+        rc, out = sh(cmd, cwd=COQ, timeout=700)
+        res['stage'] = stage
+        if rc != 0:
+            res['log'] = f'{stage} ({f}) no longer compile:\n' + out[-2500:]
+            return res
+    res['assumptions'] = _assumptions_of(out)
+    res['closed_count'] = out.count('Closed under the global context')
+    res['discharged'] = len(res['theorems'])
+    res['ok'] = not missing_pa
+    res['cmd'] = f'cd {COQ} && python harness/pytrans.py (generate) && coqc {flags} gen/Gen_{pid}.v tie/Tie_{pid}.v tie/TieProp_{pid}.v'
+    res['wall'] = time.time() - t0
+    return res
+
+
 # ----------------------------------------------------------------------------------------
 # correspondence evaluation inside Coq
 # ----------------------------------------------------------------------------------------
